@@ -252,6 +252,58 @@ def replay_motif_pair(case):
     check_minimize(case)
 
 
+def wide_cut_case(k, tier):
+    """A cone that only a cut of 7 (thorough: also 8) leaves exposes: an AND / OR tree over all inputs plus one gate that
+    reads an input the tree already holds.  The cut policy keeps the widest cut of every node, so that the searches stay
+    few; the searches over the sub-trees (no smaller circuit exists) may run into the time limit, which is legal."""
+    import random
+
+    r = random.Random(k)
+    n = 7 + (k % 4 == 3 if tier == 'thorough' else 0)
+    ins = [f'x{i}' for i in range(n)]
+    gates = [[i, 'INPUT', []] for i in ins]
+    t = r.choice(['AND', 'OR', 'NAND', 'NOR'])
+    inner = {'NAND': 'AND', 'NOR': 'OR'}.get(t, t)
+    layer = list(ins)
+    r.shuffle(layer)
+    idx = 0
+    while len(layer) > 1:
+        nxt = []
+        for q in range(0, len(layer) - 1, 2):
+            gates.append([f'g{idx}', inner, [layer[q], layer[q + 1]]])
+            nxt.append(f'g{idx}')
+            idx += 1
+        if len(layer) % 2:
+            nxt.append(layer[-1])
+        layer = nxt
+    gates.append(['r', t, [layer[0], ins[r.randrange(n)]]])
+    nl = {'inputs': ins, 'gates': gates, 'outputs': ['r'], 'style': 'plain'}
+    return {'nl': nl, 'shape': 'live', 'basis': ['AIG', 'XAIG', 'FULL', 'enum:XAIG'][k % 4], 'max_subcircuit_size': n + k % 2, 'cut_size': n,
+            'cut_limit': 2, 'fanout_size': 10000, 'time_limit': 3 if n == 7 else 10, 'enable_validation': False,
+            'policy': {'mode': 'generated', 'seed': k, 'priority': 'large_first', 'list_order': 'kept'}, 'uuid_seed': k,
+            'inject': [3, 0], 'route': [{'kind': 'emplace'}, {'kind': 'add_gate'}, {'kind': 'bench', 'keys': [3, 1, 4, 1, 5, 2, 6]}][k % 3]}
+
+
+def wide_cuts_sweep(tier, shard, nshards, seed):
+    total = 8 if tier == 'quick' else 64
+    done = nt = 0
+    sample = None
+    for idx in range(total):
+        if idx % nshards != shard:
+            continue
+        case = wide_cut_case(seed * 1000 + idx, tier)
+        try:
+            info = check_minimize(case)
+        except Violation as v:
+            v.case = case
+            raise
+        done += 1
+        if 'smaller' in info.get('cls', ()):
+            nt += 1
+        sample = {'cut_size': case['cut_size'], 'bench': build.bench_text(case['nl']), 'classes': sorted(info.get('cls', ()))}
+    return {'evaluations': done, 'distinct_nontrivial': nt, 'exhaustive': False, 'samples': [sample] if sample else []}
+
+
 def circuit_classes(nl):
     t = refsem.tables(nl)
     n = len(nl['inputs'])
@@ -392,8 +444,8 @@ SPEC = {
              'functionally equivalent gates. Case classes eq / comp / clean, const, dead computed from reference tables. '
              'Finite part: all 780 two-motif chains (sharded, every run). Non-trivial: the result differs structurally from the argument.'),
     'assumptions': ['cut enumerator and SAT solver are stand-ins inside the quantified domain (any admissible cut family, any sound and complete solver)'],
-    'sharded': {'motif_pairs': motif_pairs_sweep},
-    'replay': {'motif_pairs': replay_motif_pair},
+    'sharded': {'motif_pairs': motif_pairs_sweep, 'wide_cuts': wide_cuts_sweep},
+    'replay': {'motif_pairs': replay_motif_pair, 'wide_cuts': replay_motif_pair},
     'subs': [Sub('minimize', cases, check_minimize, {'quick': 3200, 'thorough': 60000}, shrink_quick=False)],
     'required_classes': {'minimize': ['clean', 'comp', 'eq', 'dead', 'changed', 'smaller', 'clean&changed', 'shape:motif', 'storage_not_topological', 'policy:generated',
                                       'policy:reference', 'forked_solver', 'timeout_injection', 'unsupported_rejected',
